@@ -155,9 +155,35 @@ def _impl(tier, seed, search):
                     if r[0].shape == r[1].shape: L.close(f'{nm_}.log(twist)', r[0], r[1], 1e-12, max(1.0, tmag), dict(T=Xp.A), sig='class.log:value')
             ok, r = L.noraise('Twist3.exp', lambda: Twist3(S).exp().A, dict(S=S), 'Twist3.exp')
             if ok: L.close('Twist3.exp', r, ref_exp(skewa(S)), TOL, max(1.0, float(np.linalg.norm(S[:3]))), dict(S=S))
+        # ---- Exp of N twists / rotation vectors (every N, N x 6 array and list of N vectors): element k is exp of row k
+        if i % 6 == 1:
+            for N_ in (1, 2, 3, 4, 5, 6, 7):
+                SN = [np.r_[g.normal(size=3), axis(g) * float(g.uniform(0.1, 3.0))] for _ in range(N_)]
+                for form_, arg_ in (('array', np.array(SN)), ('list', [list(x_) for x_ in SN])):
+                    ok, r = L.noraise('SE3.Exp(N)', lambda: [np.asarray(x_, float) for x_ in SE3.Exp(arg_).data], dict(N=N_, form=form_), f'SE3.Exp of {N_} twists ({form_})', sig='SE3.Exp(N):raises')
+                    if ok:
+                        L.check('SE3.Exp(N):len', len(r) == N_, dict(N=N_, form=form_), f'SE3.Exp of {N_} twists returned {len(r)} poses', sig='SE3.Exp(N)')
+                        if len(r) == N_:
+                            for k_ in range(N_): L.close('SE3.Exp(N)', r[k_], ref_exp(skewa(SN[k_])), TOL, max(1.0, float(np.linalg.norm(SN[k_][:3]))), dict(N=N_, form=form_, k=k_), sig='SE3.Exp(N)')
+                if True:
+                    WN = np.array([x_[3:] for x_ in SN])      # so3=False: the documented way to say "rows are rotation vectors"
+                    ok, r = L.noraise('SO3.Exp(N)', lambda: [np.asarray(x_, float) for x_ in SO3.Exp(WN, so3=False).data], dict(N=N_), f'SO3.Exp of {N_} rotation vectors (so3=False)', sig='SO3.Exp(N):raises')
+                    if ok:
+                        L.check('SO3.Exp(N):len', len(r) == N_, dict(N=N_), f'SO3.Exp of {N_} rotation vectors returned {len(r)} rotations', sig='SO3.Exp(N)')
+                        if len(r) == N_:
+                            for k_ in range(N_): L.close('SO3.Exp(N)', r[k_], ref_exp(skew(WN[k_])), TOL, 1.0, dict(N=N_, k=k_), sig='SO3.Exp(N)')
         # ---- 2-D ----------------------------------------------------------------------------
         th2 = th * float(g.choice([-1, 1])); t2 = v[:2] if tmag <= 1e3 else v[:2] / tmag
         S2 = np.r_[t2, th2]
+        # planar twist objects, also for twist vectors scaled to unit Euclidean length (|S| = 1 with a fractional rotational part)
+        if i % 3 == 2:
+            for Sx in (S2, S2 / max(np.linalg.norm(S2), 1e-300), np.r_[0.6, 0.0, 0.8] * float(g.choice([-1, 1]))):
+                if not np.all(np.isfinite(Sx)) or np.linalg.norm(Sx) == 0: continue
+                Mx = np.array([[0, -Sx[2], Sx[0]], [Sx[2], 0, Sx[1]], [0, 0, 0]])
+                ok, r = L.noraise('Twist2.exp', lambda: (Twist2(Sx).exp().A, Twist2(Sx).SE2().A), dict(S=Sx), 'Twist2.exp() / SE2()', sig='Twist2.exp:raises')
+                if ok:
+                    refx = ref_exp(Mx)
+                    L.close('Twist2.exp', r[0], refx, TOL, max(1.0, geom.tmag(refx)), dict(S=Sx), sig='Twist2.exp'); L.close('Twist2.SE2', r[1], refx, TOL, max(1.0, geom.tmag(refx)), dict(S=Sx), sig='Twist2.exp')
         M2 = np.array([[0, -th2, t2[0]], [th2, 0, t2[1]], [0, 0, 0]])
         ok, r = L.noraise('exp-se2', lambda: b.trexp2(S2), dict(S=S2), 'trexp2(3-vector)')
         if ok:
